@@ -1,4 +1,5 @@
 use super::Style;
+use std::borrow::Cow;
 
 /// Specifies the format for outputing css.
 ///
@@ -32,14 +33,27 @@ impl Format {
     /// Get a newline followed by len spaces, unles self is compressed.
     #[cfg_attr(kani, kani::requires(kani_verif::get_indent_pre(self, len)))]
     #[cfg_attr(kani, kani::ensures(|r| kani_verif::get_indent_post(self, len, r)))]
-    pub fn get_indent(&self, len: usize) -> &'static str {
-        static INDENT: &str = "\n                                                                                ";
+    pub fn get_indent(&self, len: usize) -> Cow<'static, str> {
         if self.is_compressed() {
-            ""
+            Cow::Borrowed("")
+        } else if let Some(indent) = INDENT.get(..=len) {
+            Cow::Borrowed(indent)
         } else {
-            &INDENT[..=len]
+            Cow::Owned(long_indent(len))
         }
     }
+}
+
+static INDENT: &str = "\n                                                                                ";
+
+/// A newline followed by len spaces, for more spaces than [`INDENT`] has.
+fn long_indent(len: usize) -> String {
+    let mut indent = String::with_capacity(len + 1);
+    indent.push_str(INDENT);
+    for _ in INDENT.len()..=len {
+        indent.push(' ');
+    }
+    indent
 }
 
 impl Default for Format {
